@@ -74,7 +74,7 @@ class C01(BaseMonitor):
         if status == "skip":
             return "skip"
         if status == "hang":
-            raise Violation("C01", "hang", {ret.site}, f"accepted edit does not return (> watchdog) in {ret.site}",
+            raise Violation("C01", "hang", {op_kind(op)}, f"accepted edit does not return (> watchdog) in {ret.site}",
                             i, op_kind(op))
         if status == "raised":
             # not an accepted edit: C01 says nothing; the live world may be half-updated, so the run ends
@@ -242,7 +242,7 @@ class C16(BaseMonitor):
         if status == "skip":
             return "skip"
         if status == "hang":
-            raise Violation("C16", "hang", {ret.site}, f"link operation does not return in {ret.site}", i, op_kind(op))
+            raise Violation("C16", "hang", {op_kind(op)}, f"link operation does not return in {ret.site}", i, op_kind(op))
         expect_exc = None
         if kind == "list" and sim.expect is not None:
             expect_exc = sim.expect["exc"]
@@ -257,6 +257,10 @@ class C16(BaseMonitor):
                 self.res.count("ended_on_recomputation_fault:" + got)
                 self.stop = "op_raised"
                 return "raised"
+            if expect_exc is None and kind == "list" and op["method"] == "setslice" and got == "ValueError":
+                # slice assignment is not offered by the library: it has to be refused before anything changes
+                expect_exc = "ValueError"
+                self.res.count("slice_assignment_refused")
             if expect_exc is None:
                 raise Violation("C16", "unexpected_exception", {f"{op_kind(op)}:{got}"},
                                 f"{op_kind(op)} raised {got}: {str(ret)[:200]} where a Python list / a plain "
@@ -293,8 +297,15 @@ class C16(BaseMonitor):
         if st != "ok":
             self.stop = "op_raised"
             return "raised"
+        if op.get("fresh_copy_of"):
+            # indirect variant: a new object, in no system, that links to objects of the first system
+            st, rt = self.execute({"op": "copy_object", "of": op["fresh_copy_of"], "name": op["arg"]})
+            if st != "ok":
+                self.stop = "op_raised"
+                return "raised"
+        before = self.world_links()
         status, ret = self.execute(op)
-        self.res.count("fault:cross_system_" + op["attr"])
+        self.res.count("fault:cross_system_" + ("indirect_" if op.get("fresh_copy_of") else "") + op["attr"])
         self.stop = "two_system_probe_done"
         in_two = sorted(n for n, o in sim.world.objs.items() if len(o.systems) > 1)
         if in_two:
@@ -304,8 +315,34 @@ class C16(BaseMonitor):
                             f"{'was accepted' if status == 'ok' else 'raised ' + type(ret).__name__}: now linked to two "
                             f"systems: {in_two[:8]}", i, op_kind(op))
         if status == "hang":
-            raise Violation("C16", "hang", {ret.site}, f"cross-system edit does not return in {ret.site}", i, op_kind(op))
+            raise Violation("C16", "hang", {op_kind(op)}, f"cross-system edit does not return in {ret.site}", i, op_kind(op))
+        if status == "raised":
+            # a refused edit changes no link, no reverse look-up, and leaves every live list attached to its object
+            after = self.world_links()
+            changed = sorted(k for k in before.keys() | after.keys() if before.get(k) != after.get(k))
+            if changed:
+                raise Violation("C16", "refused_op_changed_links",
+                                {self.cls_of(op["target"].replace(op["suffix"], "")) + "." + op["attr"]},
+                                f"{op['target']}.{op['attr']} {op['method']} {op['arg']} raised {type(ret).__name__} but "
+                                f"changed {[(k, before.get(k), after.get(k)) for k in changed[:4]]}", i, op_kind(op))
         return "refused" if status == "raised" else "ok"
+
+    def world_links(self):
+        """Forward links (with attachment flags), reverse look-ups and systems of every live object, spec or not."""
+        from efootprint.abstract_modeling_classes.contextual_modeling_object_attribute import \
+            ContextualModelingObjectAttribute
+        from efootprint.abstract_modeling_classes.list_linked_to_modeling_obj import ListLinkedToModelingObj
+        out = {}
+        for n, o in self.sim.world.objs.items():
+            for attr, val in list(o.__dict__.items()):
+                if isinstance(val, ListLinkedToModelingObj):
+                    out[(n, attr)] = ([x.name for x in val], val.modeling_obj_container is o,
+                                      all(x.modeling_obj_container is o for x in val))
+                elif isinstance(val, ContextualModelingObjectAttribute):
+                    out[(n, attr)] = (val.name, val.modeling_obj_container is o)
+            out[(n, "<containers>")] = names(o.modeling_obj_containers)
+            out[(n, "<systems>")] = names(o.systems)
+        return out
 
     def check_links(self, i, op):
         sim = self.sim
@@ -482,10 +519,15 @@ class C14(FaultMonitorMixin, BaseMonitor):
                 other = self.valid_change(exclude=e["obj"])
                 if other is not None:
                     bad = {"obj": e["obj"], "attr": e["attr"], "value": e["value"]}
+                    # companions: a value change in one order, a link or list change (when one exists) in the other
+                    other2 = self.valid_change(exclude=e["obj"], kinds=("link", "list"), tag=e["fault"]) or other
                     q.append({"op": "bad_group", "changes": [other, bad], "fault": e["fault"], "strong": e["strong"],
                               "obj": e["obj"], "attr": e["attr"]})
-                    q.append({"op": "bad_group", "changes": [bad, other], "fault": e["fault"], "strong": e["strong"],
+                    q.append({"op": "bad_group", "changes": [bad, other2], "fault": e["fault"], "strong": e["strong"],
                               "obj": e["obj"], "attr": e["attr"]})
+                    if other2 is not other:
+                        q.append({"op": "bad_group", "changes": [other2, other, bad], "fault": e["fault"],
+                                  "strong": e["strong"], "obj": e["obj"], "attr": e["attr"]})
                     # ... and right after a change that changes nothing (a form re-submitting every field): the
                     # library drops such no-op changes from the list while parsing it
                     same = {"obj": other["obj"], "attr": other["attr"],
@@ -503,12 +545,16 @@ class C14(FaultMonitorMixin, BaseMonitor):
                                   "fault": e["fault"] + ":" + m, "strong": True})
             self.queue = q
 
-    def valid_change(self, exclude):
-        r = self.k.rng("valid-change", exclude)
+    def valid_change(self, exclude, kinds=("numeric",), tag=""):
+        r = self.k.rng("valid-change", exclude, kinds, tag)
         spec = self.sim.spec
+        fns = {"numeric": opgen.gen_numeric, "link": opgen.gen_link, "list": opgen.gen_list_assign}
         for _ in range(10):
-            sub = opgen.gen_numeric(r, spec, self.cfg, set(S.closure(spec)), 0)
-            if sub is not None and sub["obj"] != exclude:
+            try:
+                sub = fns[r.choice(kinds)](r, spec, self.cfg, set(S.closure(spec)), 0)
+            except (IndexError, ValueError):
+                sub = None
+            if sub is not None and sub["op"] == "set" and sub["obj"] != exclude:
                 return {k_: v for k_, v in sub.items() if k_ != "op"}
         return None
 
@@ -537,8 +583,12 @@ class C14(FaultMonitorMixin, BaseMonitor):
                     return {"op": "bad_list", "obj": e["obj"], "attr": e["attr"], "method": m, "bad": wrong,
                             "fault": e["fault"] + ":" + m, "strong": True, "i": i}
                 if r.random() < 0.35:
-                    other = opgen.gen_numeric(r, spec, self.cfg, set(S.closure(spec)), i)
-                    if other is not None and other["obj"] != e["obj"]:
+                    try:
+                        other = r.choice([opgen.gen_numeric, opgen.gen_numeric, opgen.gen_link, opgen.gen_list_assign])(
+                            r, spec, self.cfg, set(S.closure(spec)), i)
+                    except (IndexError, ValueError):
+                        other = None
+                    if other is not None and other["op"] == "set" and other["obj"] != e["obj"]:
                         other = {k_: v for k_, v in other.items() if k_ != "op"}
                         ch = [other, bad] if r.random() < 0.5 else [bad, other]
                         if r.random() < 0.3:
@@ -729,7 +779,7 @@ class C15(FaultMonitorMixin, BaseMonitor):
                     self.compare_with_reference(i, op, "C15", oracle)
                 return "ok"
             if status == "hang":
-                raise Violation("C15", "hang", {ret.site}, f"re-assigning the previous value does not return in {ret.site}",
+                raise Violation("C15", "hang", {op_kind(op)}, f"re-assigning the previous value does not return in {ret.site}",
                                 i, op_kind(op))
             if status == "skip":
                 self.broken.pop(idx) if idx < len(self.broken) else None
@@ -750,7 +800,7 @@ class C15(FaultMonitorMixin, BaseMonitor):
             return "skip"
         if status == "hang":
             if op.get("fault"):
-                raise Violation("C15", "hang", {ret.site}, f"failing edit does not return in {ret.site}", i, op_kind(op))
+                raise Violation("C15", "hang", {op_kind(op)}, f"failing edit does not return in {ret.site}", i, op_kind(op))
             self.stop = "hang_in_plain_edit"
             return "hang"
         if status == "raised":
@@ -874,7 +924,7 @@ class C05(FaultMonitorMixin, BaseMonitor):
         if status == "skip":
             return "skip"
         if status == "hang":
-            raise Violation("C05", "hang", {ret.site}, f"simulation does not return in {ret.site}", i, op_kind(op))
+            raise Violation("C05", "hang", {op_kind(op)}, f"simulation does not return in {ret.site}", i, op_kind(op))
         if status == "raised":
             site = crash_site(ret)
             self.res.count("fault:simulation_raised_in_" + (site or "validation:" + type(ret).__name__))
@@ -995,7 +1045,7 @@ class C13(FaultMonitorMixin, BaseMonitor):
         tag = ("calc" if op.get("with_calc") else "inputs") + ("+v9" if op.get("v9") else "")
         self.res.count("fault:restart_" + tag)
         if status == "hang":
-            raise Violation("C13", "hang", {ret.site}, f"save/load does not return in {ret.site}", i, op_kind(op))
+            raise Violation("C13", "hang", {op_kind(op)}, f"save/load does not return in {ret.site}", i, op_kind(op))
         if status == "raised":
             raise Violation("C13", "reload_raised", {f"{type(ret).__name__}:{tag}"},
                             f"saving/loading ({tag}) raised {type(ret).__name__}: {str(ret)[:200]}", i, op_kind(op))
@@ -1128,6 +1178,26 @@ class C18(FaultMonitorMixin, BaseMonitor):
     def on_start(self):
         self.clean = True
         self.tail = False
+        self.check_inputs_are_what_was_given(-1, {"op": "initial"})
+
+    def check_inputs_are_what_was_given(self, i, op):
+        """'Computing never changes the physical value of any input': after the build and after every accepted edit
+        (each of which computes), every input still holds the physical value it was given (the description)."""
+        sim = self.sim
+        bad = []
+        for n in S.closure(sim.spec):
+            obj = sim.world.objs[n]
+            o = sim.spec["objs"][n]
+            for attr, v in o["attrs"].items():
+                if v is None or v[0] not in ("q", "h", "s", "tz") or attr in obj.calculated_attributes:
+                    continue
+                given = C.norm(S.make_value(v, o.get("src", {}).get(attr)))
+                ok, why = C.phys_equal(C.norm(getattr(obj, attr)), given)
+                if not ok:
+                    bad.append(((n, attr), "input no longer holds the value it was given: " + why))
+        self.res.count("inputs_compared_with_description")
+        if bad:
+            raise Violation("C18", "input_changed_by_computation", self.where_of(bad), self.fmt(bad), i, op_kind(op))
 
     def snapshots(self):
         inside = S.closure(self.sim.spec)
@@ -1144,6 +1214,8 @@ class C18(FaultMonitorMixin, BaseMonitor):
             if status == "hang":
                 self.stop = "hang_in_plain_edit"
                 return "hang"
+            if status == "ok":
+                self.check_inputs_are_what_was_given(i, op)
             return status
         # attribution: requests are judged only on a model that agrees with the rebuilt reference
         try:
@@ -1164,7 +1236,7 @@ class C18(FaultMonitorMixin, BaseMonitor):
             if status == "skip":
                 return "skip"
             if status == "hang":
-                raise Violation("C18", "hang", {ret.site}, f"{op['kind']} does not return in {ret.site}", i, op_kind(op))
+                raise Violation("C18", "hang", {op_kind(op)}, f"{op['kind']} does not return in {ret.site}", i, op_kind(op))
             if status == "raised":
                 # a read that raises is a robustness problem outside the statement; what it did before raising is judged
                 self.res.count(f"read_raised:{op['kind']}:{type(ret).__name__}")
@@ -1178,7 +1250,7 @@ class C18(FaultMonitorMixin, BaseMonitor):
             if status == "skip":
                 continue
             if status == "hang":
-                raise Violation("C18", "hang", {ret.site}, f"recomputing {t} does not return in {ret.site}", i, op_kind(op))
+                raise Violation("C18", "hang", {op_kind(op)}, f"recomputing {t} does not return in {ret.site}", i, op_kind(op))
             if "." in t:
                 self.res.count("fault:single_rule_request")
             if status == "raised":
@@ -1358,7 +1430,7 @@ class C19(BaseMonitor):
                 except opgen_skip():
                     statuses.append("skip")
                 except Hang as h:
-                    raise Violation("C19", "hang", {h.site}, f"variant '{label}' does not return in {h.site}", i, op_kind(op))
+                    raise Violation("C19", "hang", {op_kind(op)}, f"variant '{label}' does not return in {h.site}", i, op_kind(op))
                 except Violation:
                     raise
                 except Exception as e:
